@@ -115,6 +115,8 @@ PROPS["C09"] = {
         # the runner's reader of a client's output: the client answers k requests, takes the next one and stalls
         # the limit on a client's answers is 16 MiB (not the 1 MiB of a server's start response), sharp, and named when exceeded
         {"name": "C09ClientResponseSize", "pkg": CC, "test": "TestVerifC09ClientResponseSize", "kind": "enum", "timeout": 300},
+        # a server that stalls while writing its start response: setup errors within the server period, naming the progress
+        {"name": "C09ServerStall", "pkg": CC, "test": "TestVerifC09ServerStall", "kind": "enum", "timeout": 300},
         {"name": "C09ClientStall", "pkg": CC, "test": "TestVerifC09ClientStall", "kind": "enum", "timeout": {"quick": 240, "thorough": 240}},
         {"name": "C09Fuzz", "pkg": INT, "test": "FuzzVerifC09Stream", "kind": "fuzz", "fuzz_target": "FuzzVerifC09Stream",
          "only_tiers": ["thorough"], "fuzztime": {"thorough": "60s"}, "workers": 16, "timeout": {"thorough": 600}},
@@ -176,6 +178,8 @@ PROPS["C20"] = {
         {"name": "C20ServerWire", "pkg": RS, "test": "TestVerifC20ServerWire", "kind": "enum", "timeout": 600},
         {"name": "C20Histories", "pkg": COMP, "test": "TestVerifC20Histories", "kind": "rapid",
          "checks": {"quick": 1500, "thorough": 20000}, "shards": {"quick": 4, "thorough": 16}},
+        # every single-bit flip / cut / trailing bytes of one short stream per encoding, then valid streams on the same instance
+        {"name": "C20Flips", "pkg": COMP, "test": "TestVerifC20Flips", "kind": "enum", "shards": {"quick": 2, "thorough": 4}},
         {"name": "C20Enum", "pkg": COMP, "test": "TestVerifC20Enum", "kind": "enum",
          "shards": {"quick": 8, "thorough": 16}, "env_tier": {"quick": {"VERIF_C20_MAXLEN": 3}, "thorough": {"VERIF_C20_MAXLEN": 4}}},
         {"name": "C20Names", "pkg": COMP, "test": "TestVerifC20Names", "kind": "enum"},
@@ -458,6 +462,8 @@ PROPS["C04"] = {
         {"name": "C04ClientFeedback", "pkg": CC, "test": "TestVerifC04ClientFeedback", "kind": "enum"},
         # feedback reported while the case's own answer is still outstanding and another server's batch ends in between
         {"name": "C04FeedbackRace", "pkg": CC, "test": "TestVerifC04FeedbackRace", "kind": "enum", "timeout": 900},
+        # server mode through Run: the reference client's wire feedback about a server under test (OS process) that answers correctly
+        {"name": "C04ServerModeFeedback", "pkg": CC, "test": "TestVerifC04ServerModeFeedback", "kind": "enum", "timeout": 900},
         {"name": "C04Printer", "pkg": CC, "test": "TestVerifC04Printer", "kind": "enum"},
         # the server under test is gone (status 0 or killed) after k of n cases: the rest counts against success whatever its marking
         {"name": "C04ServerExit", "pkg": CC, "test": "TestVerifC04ServerExit", "kind": "enum"},
@@ -478,6 +484,8 @@ PROPS["C05"] = {
     "units": [
         # client mode over the embedded corpus: hand-over between the two in-process reference server kinds
         {"name": "C05ClientKinds", "pkg": CC, "test": "TestVerifC05ClientKinds", "kind": "enum", "shards": {"quick": 4, "thorough": 8}, "timeout": 900},
+        # the bound as the built command line sets it: real CLI, --max-servers below --parallel, servers that record when they are alive
+        {"name": "C05CLI", "pkg": "cmd/connectconformance", "test": "TestVerifC05CLI", "kind": "enum", "timeout": 1200},
         {"name": "C05Dispatch", "pkg": CC, "test": "TestVerifC05Dispatch", "kind": "rapid", "race": {"quick": False, "thorough": True},
          "checks": {"quick": 40, "thorough": 120}, "shards": {"quick": 4, "thorough": 16}, "timeout": {"quick": 900, "thorough": 5400}},
     ],
@@ -603,4 +611,17 @@ _ADDED10 = {
     "C20": " WireEndStream: compressed end-of-stream messages of 0 .. 1 MiB through the body tracer (C14 driver).",
 }
 for _pid, _txt in _ADDED10.items():
+    PROPS[_pid]["rule"] = PROPS[_pid]["rule"] + _txt
+_ADDED11 = {
+    "C04": " ServerModeFeedback: exported Run in server mode, OS-process server whose correct answers carry an HTTP trailer: the reference client's feedback fails every case.",
+    "C05": " CLI: the real command line with --max-servers below --parallel; servers under test record when they are alive.",
+    "C09": " ServerStall: a start response that stalls; setup errors within the server period.",
+    "C11": " Start responses with top-bit length prefixes / a byte-order mark.",
+    "C13": " Any-shaped debug data with default and multi-slash type URLs.",
+    "C15": " Exchange: request paths with queries, also with a literal '?' inside.",
+    "C17": " RawRequest paths with percent-encoded reserved characters.",
+    "C19": " Expand: messages with minimum size 0 (target size 0 reachable).",
+    "C20": " Flips: every single-bit flip / cut / trailing bytes of one stream per encoding, then valid streams on the same instance.",
+}
+for _pid, _txt in _ADDED11.items():
     PROPS[_pid]["rule"] = PROPS[_pid]["rule"] + _txt
